@@ -35,6 +35,7 @@ def file_cfg(rng, tier, prop):
            "nan_rate": rng.choice([0.0, 0.2]), "meta_density": rng.choice([0.0, 0.6, 1.0]), "mutable_meta": False,
            "n_steps": rng.randint(4, 16 if tier == "quick" else 30), "faults": faults,
            "fault_kind": rng.choice(["error", "error", "crash"]), "n_faults": rng.randint(1, 2),
+           "sweep": faults and rng.random() < (0.15 if tier == "quick" else 0.5),
            "explicit_format": rng.random() < 0.3, "c20_rate": {"C19": 0.15, "C20": 0.7}[prop]}
     return cfg
 
